@@ -52,11 +52,29 @@ def growth_known(ctx, pid):
         ctx.notes.append("known finding recursive-argument-growth no longer reproduces: %s" % lines[:2])
 
 
+def pp_sources_hash():
+    """the preprocessor and the entry points, comments and layout aside: when they are not the validated ones the quick tier
+    runs the sizes of the thorough tier (change-triggered deepening, no obligation)"""
+    import glob, hashlib, re
+    from svx_grammar import strip_comments
+    h = hashlib.sha256()
+    for f in sorted(glob.glob("/repo/sv-parser-pp/src/*.rs") + ["/repo/sv-parser/src/lib.rs", "/repo/sv-parser-syntaxtree/src/any_node.rs"]):
+        h.update(re.sub(r"\s+", " ", strip_comments(open(f).read())).encode())
+    return h.hexdigest()[:16]
+
+
 def check(ctx):
     prove(ctx, "C08")
     build_impl(ctx)
     r = ctx.rng
     q = ctx.quick()
+    try:
+        pp_changed = pp_sources_hash() != json.load(open(os.path.join(VERIF, "corpus", "C08-validated.json"))).get("pp_sources")
+    except Exception:
+        pp_changed = True
+    ctx.cov["preprocessor_changed_since_validation"] = pp_changed
+    if pp_changed:
+        q = False
     pool = snippets.sv_sources()
     srcs = []
     hand = "module m; initial begin $display(\"a\\\"b\\\\\", \"x\\ny\"); s = \"t\\\\\"; end\n`define S(x) `\"x`\"\nstring t = `S(q);\nendmodule\n"
@@ -74,6 +92,11 @@ def check(ctx):
         changed = True
     ctx.cov["grammar_changed_since_validation"] = changed
     srcs += pool if (changed or not q) else r.sample(pool, 60)
+    # deep trees (whatever is sized by the nesting depth): 16-40 nested blocks of several kinds
+    for n in (16, 28, 40):
+        srcs.append(("sv", "module m; initial " + "begin " * n + "x = 1; " + "end " * n + "endmodule\n"))
+        srcs.append(("sv", "module m; initial " + "".join("if (c%d) a = %d; else begin " % (i, i) for i in range(n)) + "z = 0; " + "end " * n + "endmodule\n"))
+        srcs.append(("sv", "module m; generate " + "".join("if (P%d) begin : g%d " % (i, i) for i in range(n)) + "assign w = 1; " + "end " * n + "endgenerate endmodule\n"))
     for _ in range(20 if q else 400):
         g = ppgen.Gen(r, includes=False)
         srcs.append(("sv", mutate(r, ppgen.render(g.program())["top.sv"])))
